@@ -16,8 +16,8 @@ EXTENDS Naturals, Sequences, FiniteSets, TLC, Json
 
 Recvs == {"ref", "mut", "own", "pinref", "pinmut"}
 ArgShapes == {"none", "i64", "cstruct", "ref", "mutref", "slice", "mutslice", "str",
-              "opt", "optnpo", "result", "into", "callback", "iter"}
-RetShapes == {"unit", "i64", "cstruct", "slice", "mutslice", "str", "opt", "optnpo", "result", "resunit", "resneg"}
+              "opt", "optnpo", "optptr", "result", "into", "callback", "iter"}
+RetShapes == {"unit", "i64", "cstruct", "slice", "mutslice", "str", "opt", "optnpo", "optptr", "result", "resunit", "resneg"}
 
 (* C-side type of each shape (as documented; `as implemented` where the README is silent) *)
 CRecv(r) == CASE r = "ref" -> "&CGlueC" [] r = "mut" -> "&mutCGlueC" [] r = "own" -> "CGlueC"
@@ -27,6 +27,8 @@ CArg(a) ==
     [] a = "ref" -> <<"&u64">> [] a = "mutref" -> <<"&mutu64">>
     [] a = "slice" -> <<"CSliceRef<u8>">> [] a = "mutslice" -> <<"CSliceMut<u8>">> [] a = "str" -> <<"CSliceRef<u8>">>
     [] a = "opt" -> <<"COption<u64>">> [] a = "optnpo" -> <<"Option<&u64>">>
+    \* a raw pointer has no niche: Option<*const T> is not null-pointer-optimised and must be wrapped
+    [] a = "optptr" -> <<"COption<*constu8>">>
     [] a = "result" -> <<"CResult<u64,u64>">> [] a = "into" -> <<"u64">>
     [] a = "callback" -> <<"OpaqueCallback<u64>">> [] OTHER -> <<"CIterator<u64>">>
 (* return type and trailing output parameter *)
@@ -36,13 +38,14 @@ CRet(t, ir) ==
     [] t = "slice" -> [ret |-> "CSliceRef<u8>", out |-> <<>>] [] t = "mutslice" -> [ret |-> "CSliceMut<u8>", out |-> <<>>]
     [] t = "str" -> [ret |-> "CSliceRef<u8>", out |-> <<>>]
     [] t = "opt" -> [ret |-> "COption<u64>", out |-> <<>>] [] t = "optnpo" -> [ret |-> "Option<&u64>", out |-> <<>>]
+    [] t = "optptr" -> [ret |-> "COption<*constu8>", out |-> <<>>]
     [] t = "result" -> IF ir THEN [ret |-> "i32", out |-> <<"&mutMaybeUninit<u64>">>] ELSE [ret |-> "CResult<u64,()>", out |-> <<>>]
     [] t = "resunit" -> IF ir THEN [ret |-> "i32", out |-> <<>>] ELSE [ret |-> "CResult<(),()>", out |-> <<>>]
     \* a user error type whose integer codes are negative (errno style)
     [] OTHER -> IF ir THEN [ret |-> "i32", out |-> <<"&mutMaybeUninit<u64>">>] ELSE [ret |-> "CResult<u64,NegErr>", out |-> <<>>]
 
 (* C-representable by the compiler's rules: every type the model predicts is one of these *)
-FfiSafeTypes == {"i64", "i32", "()", "Pt", "&u64", "&mutu64", "CSliceRef<u8>", "CSliceMut<u8>", "COption<u64>",
+FfiSafeTypes == {"i64", "i32", "()", "Pt", "&u64", "&mutu64", "CSliceRef<u8>", "CSliceMut<u8>", "COption<u64>", "COption<*constu8>",
                  "Option<&u64>", "CResult<u64,u64>", "CResult<u64,()>", "CResult<(),()>", "CResult<u64,NegErr>", "u64",
                  "OpaqueCallback<u64>", "CIterator<u64>", "&mutMaybeUninit<u64>",
                  "&CGlueC", "&mutCGlueC", "CGlueC", "Pin<&CGlueC>", "Pin<&mutCGlueC>"}
